@@ -5,7 +5,7 @@ import numpy as np
 import pandas as pd
 
 from vmc import alpha, build, models
-from vmc.core import scratch
+from vmc.core import scratch, seamprobe
 
 ID = "C04"
 LEVEL = "model_checking"
@@ -65,7 +65,24 @@ def _judge(bins, c, s, e, lo, hi):
     return f"empty range selected ({lo},{hi})"
 
 
+def _func_probe():
+    """smallest valid use of the internal region helpers, made the way the function legs make their calls"""
+    from cooler import util
+    from cooler.core import region_to_extent, region_to_offset
+    grp = {"indexes": {"chrom_offset": np.array([0, 1])}, "bins": {"start": np.array([0]), "end": np.array([2]), "chrom": np.array([0])},
+           "chroms": {"length": np.array([2])}}
+    region_to_extent(grp, {"a": 0}, ("a", 0, 2), 2)
+    region_to_extent(grp, {"a": 0}, ("a", 0, 2), None)
+    region_to_offset(grp, {"a": 0}, ("a", 0, 2), 2)
+    df = build.bins_df([("a", 0, 2)])
+    cs = pd.Series([2], index=["a"])
+    util.GenomeSegmentation(cs, df).fetch(("a", 0, 2))
+    util.bedslice(df.groupby("chrom", observed=True, sort=False), cs, ("a", 0, 2))
+
+
 def _func_table(R, table, flavour, only):
+    if not seamprobe.internal_ok(R, "C04:function", _func_probe):
+        return
     from cooler import util
     from cooler.core import region_to_extent, region_to_offset
     bins = alpha.table_bins(table, flavour)
@@ -300,6 +317,8 @@ def _large(R, only):
 
 
 def _binsizes(R, unit, only):
+    if not seamprobe.internal_ok(R, "C04:function", _func_probe):
+        return
     from cooler import util
     from cooler.core import region_to_extent, region_to_offset
     R.add("states")
